@@ -4,7 +4,7 @@
     A bitfield is [{ bytes : SmallVec<u8>; len : usize }].  Every function below mirrors the
     Rust function of the same name, loop for loop; the three flavours (Variable<N> = BitList,
     Fixed<N> = BitVector, Dynamic) share the generic part.  Definitions only. *)
-From SSZ Require Export Base.
+From SSZ Require Export Base RustSem.
 
 Record bf := { bf_bytes : bytes; bf_len : N }.
 
@@ -25,9 +25,7 @@ Fixpoint updN (l : bytes) (i : N) (x : N) : bytes :=
   | y :: r => if i =? 0 then x :: r else y :: updN r (i - 1) x
   end.
 
-(** u8 helpers *)
-Definition not8 (b : N) : N := N.lxor 255 b.                    (* !b *)
-Definition shl8 (b k : N) : N := (N.shiftl b k) mod 256.         (* b << k, k < 8 *)
+(* u8 helpers [not8], [shl8], [overflowing_shr8]: RustSem.v *)
 
 (** ** Generic part ([impl<T: BitfieldBehaviour> Bitfield<T>]) *)
 
@@ -51,8 +49,6 @@ Definition bf_get (b : bf) (i : N) : outcome bool :=
     end
   else Err.
 
-(** [u8::MAX.overflowing_shr(s).0]: the shift amount is taken modulo 8. *)
-Definition overflowing_shr8 (b s : N) : N := N.shiftr b (s mod 8).
 
 (** [from_raw_bytes(bytes, bit_len)] *)
 Definition from_raw_bytes (bs : bytes) (bit_len : N) : outcome bf :=
